@@ -24,6 +24,7 @@ open Coraza
 inductive Var
   | argsGet | argsPost | argsPath | args | argsNames | argsGetNames | argsPostNames
   | reqHeaders | reqHeadersNames | tx | matchedVar | matchedVarName | matchedVars | matchedVarsNames
+  | argsCombinedSize
   | unknown
 deriving Repr, DecidableEq
 
@@ -35,6 +36,7 @@ def Var.name : Var → Bytes
   | .reqHeadersNames => Bytes.ofString "REQUEST_HEADERS_NAMES" | .tx => Bytes.ofString "TX"
   | .matchedVar => Bytes.ofString "MATCHED_VAR" | .matchedVarName => Bytes.ofString "MATCHED_VAR_NAME"
   | .matchedVars => Bytes.ofString "MATCHED_VARS" | .matchedVarsNames => Bytes.ofString "MATCHED_VARS_NAMES"
+  | .argsCombinedSize => Bytes.ofString "ARGS_COMBINED_SIZE"
   | .unknown => Bytes.ofString "UNKNOWN"
 
 structure KV where
@@ -251,6 +253,10 @@ def select (tx : Tx) (v : Var) (key : Bytes) : List MD :=
   | .argsGetNames | .argsPostNames | .reqHeadersNames | .matchedVarsNames => findNames (mapOf tx v) v key
   | .matchedVar => [⟨.matchedVar, [], tx.matchedVar⟩]          -- Single.FindAll
   | .matchedVarName => [⟨.matchedVarName, [], tx.matchedVarName⟩]
+  | .argsCombinedSize =>
+    -- sized.go:58 size(): Σ len(key)+len(value) over ARGS_GET and ARGS_POST, original-case keys
+    let sz (m : CMap) : Nat := (m.all.map fun e => e.key.length + e.value.length).sum
+    [⟨.argsCombinedSize, [], natToBytes (sz tx.argsGet + sz tx.argsPost)⟩]
   | .unknown => []
   | _ => findMap (mapOf tx v) v key
 
